@@ -199,15 +199,9 @@ func ruleFmtConst(c *Ctx, r *Report, f *ssa.Function) int {
 		n++
 		ok := fc.format != nil
 		if !ok {
-			// a phi of constants is still constant text
-			if phi, isPhi := fc.fmtVal.(*ssa.Phi); isPhi {
-				ok = true
-				for _, e := range phi.Edges {
-					if k := constVal(e); k == nil || k.Kind() != constant.String {
-						ok = false
-					}
-				}
-			}
+			// a choice between constants (a merge, or a helper that returns one of several constants) is still
+			// constant text
+			_, ok = constFormats(fc.fmtVal, 0)
 		}
 		r.check(ok, "FMT-CONST", fname(f), "format", c.pos(fc.call.Pos()),
 			"the format string is a compile-time constant: field content is only ever an operand",
@@ -442,4 +436,48 @@ func isWriterType(t types.Type) bool {
 		}
 	}
 	return false
+}
+
+// constFormats: the constant strings v can be: a constant, a merge of constants, or the result of a module function
+// every return of which is such a choice.
+func constFormats(v ssa.Value, depth int) ([]string, bool) {
+	if v == nil || depth > 3 {
+		return nil, false
+	}
+	if s, ok := constStr(v); ok {
+		return []string{s}, true
+	}
+	switch x := v.(type) {
+	case *ssa.Phi:
+		var out []string
+		for _, e := range x.Edges {
+			if e == v {
+				continue
+			}
+			fs, ok := constFormats(e, depth+1)
+			if !ok {
+				return nil, false
+			}
+			out = append(out, fs...)
+		}
+		return uniq(out), len(out) > 0
+	case *ssa.Call:
+		g := x.Call.StaticCallee()
+		if g == nil || g.Blocks == nil || g.Pkg == nil || !strings.HasPrefix(g.Pkg.Pkg.Path(), modPath) || g.Signature.Results().Len() != 1 {
+			return nil, false
+		}
+		var out []string
+		okAll := true
+		instrs(g, func(in ssa.Instruction) {
+			if rt, ok := in.(*ssa.Return); ok {
+				fs, ok := constFormats(retOperands(rt)[0], depth+1)
+				if !ok {
+					okAll = false
+				}
+				out = append(out, fs...)
+			}
+		})
+		return uniq(out), okAll && len(out) > 0
+	}
+	return nil, false
 }
